@@ -91,6 +91,8 @@ package mcp
 // ---------------------------------------------------------------------------------------------
 
 //@ func remarshal [C06]
+//@   track encoding/json.Unmarshal as stdDecCS
+//@   ensures @peer-data-is-decoded-case-sensitively calls(stdDecCS) == 0
 //@   modifies reach(to)
 
 // decodeMetaValue reads m[key] and, where needed, re-decodes it into a fresh value: nothing visible changes.
@@ -1632,7 +1634,11 @@ package mcp
 // validateParamHeaders: a parameter header counts as missing only if the request carries no such header at all (an
 // empty value mirrors the empty string argument - finding F3, repaired); a header that is present is decoded and
 // compared with the body value.
+// (round 9, after C06-8, C19-6, C12-9: three seeds swapped the SDK's case-sensitive decoder for encoding/json in three different
+// functions) every function under contract that decodes peer-chosen bytes states that it never uses encoding/json.Unmarshal.
 //@ func validateParamHeaders [C12]
+//@   track encoding/json.Unmarshal as stdDecCS
+//@   ensures @peer-data-is-decoded-case-sensitively calls(stdDecCS) == 0
 //@   track decodeHeaderValue as decode
 //@   track primitiveEqual as same
 //@   track fmt.Errorf as report
@@ -1717,6 +1723,8 @@ package mcp
 // unmarshalPrimitive: what is mirrored into a header is a string, a boolean or an integer (never a float or a
 // composite value); anything else comes back as nil.
 //@ func unmarshalPrimitive [C12]
+//@   track encoding/json.Unmarshal as stdDecCS
+//@   ensures @peer-data-is-decoded-case-sensitively calls(stdDecCS) == 0
 //@   modifies extern
 //@   ensures @only-primitives-are-mirrored result == nil || typeIs(result, string) || typeIs(result, bool) || typeIs(result, int64)
 //@   ensures @mirrored-integers-are-in-the-interoperable-range typeIs(result, int64) ==> -9007199254740991 <= result.(int64) && result.(int64) <= 9007199254740991
@@ -1817,6 +1825,8 @@ package mcp
 // canceller.Preempt (C04, receiver side): only notifications/cancelled cancels anything, and what is cancelled is the
 // request whose id the notification names (coerced by MakeID); every message is then passed on (ErrNotHandled).
 //@ func (*canceller).Preempt [C04, C02]
+//@   track encoding/json.Unmarshal as stdDecCS
+//@   ensures @peer-data-is-decoded-case-sensitively calls(stdDecCS) == 0
 //@   track jsonrpc2.MakeID as coerce
 //@   ghostvar cancelled int = 0
 //@   on call go:Cancel: cancelled = cancelled + 1
@@ -1989,6 +1999,8 @@ package mcp
 //@   requires m != nil   // encoding/json calls UnmarshalJSON on an allocated value
 //@   modifies *
 //@ func unmarshalContent [C19]
+//@   track encoding/json.Unmarshal as stdDecCS
+//@   ensures @peer-data-is-decoded-case-sensitively calls(stdDecCS) == 0
 //@   nopanic
 //@   modifies *
 //@ func contentsFromWire [C19]
@@ -2007,6 +2019,8 @@ package mcp
 // at all - the function returns (messages or an error); a batch has exactly one decoded message per element, in
 // order, and a decoding error of any element fails the whole batch.
 //@ func readBatch [C19]
+//@   track encoding/json.Unmarshal as stdDecCS
+//@   ensures @peer-data-is-decoded-case-sensitively calls(stdDecCS) == 0
 //@   nopanic
 //@   track DecodeMessage as dec
 //@   modifies *
@@ -2125,6 +2139,8 @@ package mcp
 // invalid params (-32602), never dropped or passed on; when decoding succeeded any rejection is an invalid request
 // (-32600: required params missing or null); a rejection hands back no params.
 //@ func newMethodInfo$1 [C02, C19]
+//@   track encoding/json.Unmarshal as stdDecCS
+//@   ensures @peer-data-is-decoded-case-sensitively calls(stdDecCS) == 0
 // (C19: the params of every incoming message are decoded with the SDK's case-sensitive decoder, internal/json - never
 // with encoding/json, which also accepts mis-cased member names)
 //@   track internal/json.Unmarshal as dec
